@@ -222,6 +222,21 @@ let judge _name ins outs =
   let obs = match one "obs" o with Some v -> v | None -> raise (Bad "no obs") in
   if obs = "panic" then VPropfail ("no_panic", "the logger panicked") else
   let flag k = match one k o with Some "0" -> false | _ -> true in
+  (* the reference body (IN B=) must be what Request.Write / Response.Write put on the
+     wire, whenever net/http can serialise the message and the coding list is plain *)
+  let body_status_ok =
+    (* 1xx / 204 / 304 and answers to HEAD carry no body on the wire whatever the Body field holds *)
+    match one "S" i with
+    | Some v -> let st = int_of_string v in not ((st >= 100 && st <= 199) || st = 204 || st = 304)
+    | None -> true in
+  let wire_tie () =
+    match one "wb" o with
+    | Some v ->
+        (match parts v with
+         | ["1"; w] when (te = [] || te = [cs "chunked"]) && body_status_ok ->
+             if bs env w <> body then Some "wire-body-differs-from-the-reference-body" else None
+         | _ -> None)
+    | None -> Some "no-wire-body-token" in
   let chunk_tie () =
     (* the concrete chunk coding of the model against Go's writer and reader *)
     List.find_map (fun v -> match parts v with
@@ -257,6 +272,10 @@ let judge _name ins outs =
              VPropfail ("fields_equal", "differs=" ^ String.concat "," d)
          | 2 ->
              let got = match e.r_post with None -> "none" | Some p -> "text=" ^ short p.pd_text ^ "_nparams=" ^ string_of_int (List.length p.pd_params) in
+             (* C16_postdata_guard_is_absence_of_unframed_body *)
+             if unframed_body_b m && e.r_post = None then
+               VPropfail ("postdata_is_origin_body", Printf.sprintf "unframed-body-omitted cl=%s te=none body=%s" (dec_of_z cl) (short body))
+             else
              VPropfail ("postdata_is_origin_body", Printf.sprintf "capture=%b chunked=%b body=%s got_%s" cap (is_chunked te) (short body) got)
          | _ ->
              let explained = (match roundtrip_req x e, rt with
@@ -296,9 +315,9 @@ let judge _name ins outs =
         else if not rt_model_ok then VDisagree "model-roundtrip-differs"
         else if not (flag "fwd") then VDisagree "forwarded-body-changed-by-logging"
         else if not (flag "j2") then VDisagree "json-reparse-not-a-fixed-point"
-        else (match chunk_tie () with
-            | Some d -> VDisagree d
-            | None -> VOk (e.r_post <> None))
+        else (match wire_tie (), chunk_tie () with
+            | Some d, _ | None, Some d -> VDisagree d
+            | None, None -> VOk (e.r_post <> None))
     end
   end else if kind = "RES" then begin
     let st = match one "S" i with Some v -> zint v | None -> z_of_int 200 in
@@ -358,9 +377,9 @@ let judge _name ins outs =
         else if not rt_model_ok then VDisagree "model-roundtrip-differs"
         else if not (flag "fwd") then VDisagree "forwarded-body-changed-by-logging"
         else if not (flag "j2") then VDisagree "json-reparse-not-a-fixed-point"
-        else (match chunk_tie () with
-            | Some d -> VDisagree d
-            | None -> VOk (cap && body <> []))
+        else (match wire_tie (), chunk_tie () with
+            | Some d, _ | None, Some d -> VDisagree d
+            | None, None -> VOk (cap && body <> []))
     end
   end else VDisagree "unknown-case-kind"
 
